@@ -157,6 +157,7 @@ class JobResult:
         self.failed = []              # obligations with FAILURE
         self.cex = {}                 # input name -> value (from first failing trace)
         self.raw_tail = ''
+        self.probe = None
         self.loop_obligations = 0
         self.cmds = []
 
@@ -166,7 +167,7 @@ class JobResult:
                 'ok': self.n_ok, 'fail': self.n_fail, 'error': self.n_err,
                 'loop_contract_obligations': self.loop_obligations,
                 'wall_s': round(self.wall, 2), 'enforce': self.job.enforce,
-                'replaced_by_contract': self.job.replace, 'note': self.job.note,
+                'replaced_by_contract': self.job.replace, 'note': self.job.note, 'vacuity_probe': self.probe,
                 'failed': [o[0] + ': ' + o[1] for o in self.failed][:10]}
 
 
@@ -280,7 +281,58 @@ def run_job(job, workdir):
         r.reason = 'loop contracts requested but no loop-invariant obligations present'
         return r
     r.status = 'pass'
+    # vacuity probe: every user-level obligation (harness assertions, contract postconditions) must be
+    # reachable under the harness's assumptions / the contract's preconditions
+    if job.kind != 'control' and (PROBE_ALL or r.wall < PROBE_FAST_S):
+        unreach = vacuity_probe(job, b, r)
+        if unreach is None:
+            r.probe = 'probe did not finish'
+        elif unreach:
+            r.status = 'undecided'
+            r.reason = 'vacuous: %d obligation(s) unreachable under the preconditions, e.g. "%s"' % (len(unreach), unreach[0][:120])
+            r.probe = 'unreachable: ' + '; '.join(u[:80] for u in unreach[:5])
+        else:
+            r.probe = 'all user obligations reachable'
     return r
+
+
+PROBE_ALL = os.environ.get('VERIF_TIER', '').startswith('t')
+PROBE_FAST_S = 40.0
+
+
+def vacuity_probe(job, binary, r):
+    user = {}
+    for o in r.obligations:
+        name, desc, line = o[0], o[1], str(o[4])
+        if re.search(r'\.postcondition\.', name) or (re.search(r'\.assertion\.', name) and o[3] and '/props/' in str(o[3])
+                                                   and not desc.startswith('repo assert') and 'model:' not in desc
+                                                   and 'CONTROL' not in desc):
+            user[(desc, line)] = name
+    if not user:
+        return []
+    cb = ['cbmc', binary, '--cover', 'assertion', '--json-ui', '--drop-unused-functions'] + BACKENDS.get('sat', []) + \
+         [a for a in job.cbmc_args]
+    if job.unwind is not None:
+        cb += ['--unwind', str(job.unwind)]
+    rc, out, err, wall = run(cb, timeout=max(120, min(job.timeout, 900)), mem_gb=job.mem_gb)
+    r.wall += wall
+    try:
+        msgs = json.loads(out)
+    except Exception:
+        return None
+    goals = None
+    for m in msgs:
+        if isinstance(m, dict) and 'goals' in m:
+            goals = m['goals']
+    if goals is None:
+        return None
+    seen = {}
+    for g in goals:
+        sl = g.get('sourceLocation') or {}
+        key = (g.get('description', ''), str(sl.get('line')))
+        if key in user:
+            seen[key] = seen.get(key, False) or g.get('status') == 'satisfied'
+    return ['%s (line %s)' % k for k, ok in seen.items() if not ok]
 
 
 def trace_inputs(trace, names, harness=None):
